@@ -1,5 +1,6 @@
 import Pl.Anc
 import Pl.CheckSound
+import Pl.PlanSound
 
 /-! # C02 — property theorems (statements only; proofs live in the family libraries) -/
 
@@ -29,6 +30,38 @@ theorem step_commit_sound :
           (strict = true → q ∈ nonRedundant (ancestors parents) (dedup (parents.toArray.getD a.commit []))) ∧
           (q < parents.length → ∀ x, x ∈ br.set ↔ Ancestor parents x q))) :=
   @Pl.step_commit_sound
+end
+
+section
+open Pl
+
+/-- an accepted merge joins >= 2 pairwise distinct live awake branches with the same last commit `m`, whose union is
+exactly the computed ancestry of `m`; strict mode: one branch per non-redundant parent -/
+theorem step_merge_sound :
+    ∀ (strict : Bool) (parents : List (List Nat)) (s s' : St) (a : Action)
+    (hk : a.kind = .merge) (h : step strict parents.toArray (ancestors parents) s a = .ok s'),
+    2 ≤ a.items.length ∧ (dedup a.items).length = a.items.length ∧
+    ∃ brs m, a.items.mapM s.get = some brs ∧ (∀ b ∈ brs, b.hib = false ∧ b.last = some m) ∧
+      brs.foldl (fun acc b => unionSorted b.set acc) [] = (ancestors parents).getD m [] ∧
+      (strict = true → a.items.length = (nonRedundant (ancestors parents) (parents.toArray.getD m [])).length) :=
+  @Pl.step_merge_sound
+
+/-- plan soundness: acceptance of a whole plan implies (1) every action is accepted in the state reached by its prefix,
+(2) exactly the retained commits are replayed, (3) strict mode: once per non-redundant parent, (4) nothing is left
+hibernated -/
+theorem checkPlan_sound :
+    ∀ (strict : Bool) (parents : List (List Nat)) (retained : List Nat) (plan : List Action)
+    (h : checkPlan strict parents retained plan = .ok ()),
+    ∃ sN, plan.foldlM (step strict parents.toArray (ancestors parents)) ⟨[], [], []⟩ = .ok sN ∧
+      (∀ A a B, plan = A ++ a :: B → ∃ s s',
+          A.foldlM (step strict parents.toArray (ancestors parents)) ⟨[], [], []⟩ = .ok s ∧
+          step strict parents.toArray (ancestors parents) s a = .ok s' ∧
+          B.foldlM (step strict parents.toArray (ancestors parents)) s' = .ok sN) ∧
+      (∀ c ∈ retained, 1 ≤ replays plan c) ∧
+      (∀ c, 1 ≤ replays plan c → c ∈ retained) ∧
+      (strict = true → ∀ c ∈ retained, replays plan c = wantReplays (ancestors parents) parents.toArray c) ∧
+      (∀ p ∈ sN.live, p.2.hib = false) :=
+  @Pl.checkPlan_sound
 end
 
 end Props.C02
